@@ -3,6 +3,7 @@ import Oracle.C01
 import Oracle.C08
 import Oracle.C09
 import MobiusModel.Tree
+import MobiusModel.TreeAlias
 /-! Oracle handlers for C10 (model functions exposed on the line protocol).
 
   Tree tokens (preorder): `D <name> <number of children> …children…` | `F <filespec>` (file spec as in C08).
@@ -119,6 +120,26 @@ def c10Own : List (String × Handler) := [
       let withCuts := its.zipIdx.map fun (it, idx) => (it, match cutAt with | some (i, n) => if i = idx then some n else none | none => none)
       let (fs, ws, ok) := uploadItems (parseFs store) withCuts
       s!"ok={ok} wrote=" ++ " ".intercalate (ws.map toHex) ++ " fs=" ++ " ".intercalate (fsListing fs)
+    | _ => "bad-op"),
+  -- aliasres <absolute folder holding the link> <a|r> <link string> → where the model's kernel looks for the target
+  ("aliasres", fun (a : List String) => match a with
+    | [d, k, l] =>
+      let comps := fun (b : Bytes) => (splitSlash b).filter (· ≠ [])
+      toHex (joinSlash (resolveAt (comps (hexb d)) ⟨k == "a", comps (hexb l)⟩))
+    | _ => "bad-op"),
+  -- relof <absolute folder> <absolute target> → the relative link string from the folder to the target
+  ("relof", fun (a : List String) => match a with
+    | [d, t] =>
+      let comps := fun (b : Bytes) => (splitSlash b).filter (· ≠ [])
+      toHex (joinSlash (relOf (comps (hexb d)) (comps (hexb t))).comps)
+    | _ => "bad-op"),
+  -- sidepath <folder> <template prefix> <name> → the side file's path (model of Sprintf(prefix%s, name) in the item's folder)
+  ("sidepath", fun (a : List String) => match a with
+    | [d, pre, n] =>
+      let comps := fun (b : Bytes) => (splitSlash b).filter (· ≠ [])
+      match sidePath (comps (hexb d)) (hexb pre) (hexb n) with
+      | some p => toHex (joinSlash p)
+      | none => "none"
     | _ => "bad-op"),
   -- fanswer <store> | <path> → the answer to a file item
   ("fanswer", fun (a : List String) => match splitBar a with
